@@ -24,7 +24,7 @@ import (
 
 func TestMain(m *testing.M) {
 	stats.Init("C07")
-	stats.Rule("rapid state machine over a SURVEYOR socket with 1-3 contexts on 1-3 vt pipes; actions survey/respond(kind)/recv/openCtx/closeCtx/dropPipe/addPipe; response kinds: current, previous survey of the same context, other context's survey, no top bit, short body, random id; plus expiry scenarios with survey time 150-300 ms (response before/after expiry, Recv blocked across expiry, Recv after expiry). Also: survey time set on the context or inherited from the socket; surveys optionally replacing a pending one. Non-trivial: >=1 stale/foreign/malformed response while a survey is open, or an expiry, or >=2 contexts with surveys; distinct by action/outcome sequence")
+	stats.Rule("rapid state machine over a SURVEYOR socket with 1-3 contexts on 1-3 vt pipes; actions survey/respond(kind)/recv/openCtx/closeCtx/dropPipe/addPipe; response kinds: current, previous survey of the same context, other context's survey, no top bit, short body, random id; plus expiry scenarios with survey time 150-300 ms (response before/after expiry, Recv blocked across expiry, Recv after expiry). Also: survey time set on the context or inherited from the socket; surveys optionally replacing a pending one. Non-trivial: >=1 stale/foreign/malformed response while a survey is open, or an expiry, or >=2 contexts with surveys; distinct by action/outcome sequence. Round 5: survey-id counter crossing 2^31 (socket creation timed to the clock-seeded counter)")
 	stats.Assume("expiry: lower bound exact (a Recv cannot report expiry before survey time has elapsed since before Send); 'after expiry' is taken as survey time + 300 ms")
 	rc := m.Run()
 	stats.Flush()
